@@ -4,7 +4,7 @@ from contracts.c_enc import ITEM_REF_MODEL, OBN_RAISES, OBN_BYTES
 # ---------------------------------------------------------------------------------------------- X-NP: opaque library values
 # chunk descriptor: which source rows a chunk holds (absolute index of its first row, number of rows), in which structured dtype
 OPQ_MODELS = {
-    'chunk': {'first_row': 'int', 'n_rows': 'int', 'sdtype': 'opq:sdtype', 'rows_of': 'opq:source', '__getitem__': 'method:opq:chunk',
+    'chunk': {'first_row': 'int', 'n_rows': 'int', 'sdtype': 'opq:sdtype', 'rows_of': 'opq:source', '__getitem__': 'method:opq:chunk', 'byteswap': 'method:opq:chunk',
               '__setitem__': 'method:opq:chunk',                 # store into a chunk made by np.zeros: the writer's own buffer
               '__isinstance__': {}},
     'source': {'__getitem__': 'method:opq:ndarray', 'dtype': 'opq:sdtype', '__isinstance__': {}},
@@ -85,7 +85,7 @@ NW_FIELDS = dict(SW_FIELDS, _data_source='opq:sarray')
 
 CONTRACTS.update({
  'SourceDataWrapper.load_chunk[base]': dict(
-    target='SourceDataWrapper.load_chunk', self_class='SourceDataWrapper', props=['C11', 'C03', 'C19', 'C08'],
+    target='SourceDataWrapper.load_chunk', self_class='SourceDataWrapper', props=['C11', 'C03', 'C19', 'C08', 'C10'],
     self_fields=dict(SW_FIELDS, _mapping=M2), params={'start': 'int', 'stop': 'int?'}, returns='opq:chunk',
     # type invariant of a constructed wrapper: every mapped dataset exists in the source (checked by determine_dtypes at construction)
     requires=["not source_missing(self._data_source, self._mapping['K0'])", "not source_missing(self._data_source, self._mapping['K1'])"],
@@ -96,7 +96,7 @@ CONTRACTS.update({
               "chunk_field_first(result, 'K0') == self._from_idx + start and chunk_field_first(result, 'K1') == self._from_idx + start and "
               "chunk_field_src(result, 'K0') == self._data_source[self._mapping['K0']] and chunk_field_src(result, 'K1') == self._data_source[self._mapping['K1']]")]),
  'NumpyDataWrapper.load_chunk': dict(
-    props=['C11', 'C03', 'C08'], self_fields=NW_FIELDS, self_inv=SW_INV + ['self._to_idx <= self._data_source.shape0'],
+    props=['C11', 'C03', 'C08', 'C10'], self_fields=NW_FIELDS, self_inv=SW_INV + ['self._to_idx <= self._data_source.shape0'],
     params={'start': 'int', 'stop': 'int?'}, returns='opq:chunk',
     stubs={}, raises={'ValueError': f'self._dtype != self._data_source.dtype and ({LOAD_RAISES})'},
     requires=['0 <= start', f'start <= {STOP}', f'{STOP} <= self._n_rows'],
@@ -225,7 +225,7 @@ for _own, _passed in (('dict{}', 'dict{A:opq:arr,B:opq:arr}'), ('dict{A:opq:arr}
     _ens += [(f'data-given-at-channel-creation-is-used-for-{k}', f"{_W}['{k}'] is self._data_dict['{k}']") for k in _own_keys if k not in _keys]
     _ens += [('nothing-else-is-read', f'len({_W}) == {len(set(_keys) | set(_own_keys))}')]
     CONTRACTS[f'LogicalFile._make_multi_frame_data[{_nm}]'] = dict(
-        target='LogicalFile._make_multi_frame_data', props=['C03', 'C11', 'C14', 'C19'],
+        target='LogicalFile._make_multi_frame_data', props=['C03', 'C11', 'C14', 'C19', 'C18'],
         self_fields={'_data_dict': _own}, params={'fr': FR, 'data': _passed, 'from_idx': 'int', 'to_idx': 'int?', 'kwargs': {}},
         returns={'cls': 'MultiFrameData', 'fields': {}},
         stubs={'channel_name_mapping': dict(returns='opq:mapping', pure=True), 'known_channel_dtypes_mapping': dict(returns='opq:known', pure=True),
